@@ -628,6 +628,25 @@ class Arr2(object):
     _dtype = None
 
     @property
+    def T(self):
+        """transpose, decidable only where the path condition fixes the number of rows to the number of columns (a square
+        block): entry (i, j) of the result is entry (j, i), each new column an explicit case split over the old ones"""
+        from . import smt
+        k = len(self.cols)
+        if any(c.mask is not None for c in self.cols):
+            raise paths.Unsupported('transpose of a boolean-selected array')
+        r = smt.prove(list(State.ctx.pc), ir.eq(to_term(self.n), k), timeout_ms=3000)
+        if r.verdict != 'proved':
+            raise paths.Unsupported('attribute T of Arr2 with a row count the path does not fix')
+        cols = []
+        for j in range(k):
+            t = self.cols[k - 1].elem(j).t
+            for i in range(k - 2, -1, -1):
+                t = ir.ite(ir.eq(IDX, i), self.cols[i].elem(j).t, t)
+            cols.append(Lane(t, k))
+        return Arr2(cols, k)
+
+    @property
     def dtype(self):
         return self._dtype if self._dtype is not None else self.cols[0].dtype
 
